@@ -52,6 +52,10 @@ var pool = []poolObj{
 	{"negratio", "ratio", "-7/3", false, nil},
 	{"negzero", "float", "-0.0", false, nil},
 	{"five", "posint", "5", false, nil},
+	// the largest radix, one more, and the size of a byte
+	{"n36", "posint", "36", false, nil},
+	{"n37", "posint", "37", false, nil},
+	{"n256", "posint", "256", false, nil},
 	// what float arithmetic hands out at its edges: (* 1d308 10) and the difference of two of those
 	{Name: "inf", Class: "inf", Src: "(* 1d308 10)", Make: func() slip.Object { return slip.DoubleFloat(math.Inf(1)) }},
 	{Name: "nan", Class: "nan", Src: "(- (* 1d308 10) (* 1d308 10))", Make: func() slip.Object { return slip.DoubleFloat(math.NaN()) }},
@@ -133,7 +137,7 @@ var smallPool = []string{"nil", "zero", "neg1", "big62", "str", "sym", "keyword"
 // numPool: every ordered pair of these for every function that documents a numeric
 // parameter, in both tiers: the places where machine arithmetic has an edge.
 var numPool = []string{"zero", "one", "neg1", "three", "big62", "minfix", "maxfix", "big70", "negbig70", "ratio", "negratio", "double", "negzero", "single", "long", "complex",
-	"octet0", "octet7", "bit0", "bit1", "sbyte0", "ubyte0", "sbyte-neg", "inf", "nan"}
+	"octet0", "octet7", "bit0", "bit1", "sbyte0", "ubyte0", "sbyte-neg", "inf", "nan", "n36", "n37", "n256"}
 
 // quickPool: the quick tier walks every pair of these for every function.
 var quickPool = []string{"nil", "zero", "three", "neg1", "big62", "big40", "bad-utf8", "deep-list", "double", "str", "sym", "keyword", "char", "list3", "list1", "dotted", "vector", "hash", "lambda", "in-stream"}
